@@ -30,7 +30,7 @@ PROPS['C15'] = dict(level='model_checking',
     H('v1_locker_vs_try', 'C15_mutex_v1.cpp', ['h_lock0', 'h_try'], 22, final='h_final1', desc='async_lock vs try_lock/unlock'),
     ] + [SEQ('v2_plan_%02d' % p, 'C15_mutex_v2.cpp', 'h_mutex_v2', opts=dict(params=[p], max_rec=4), desc='v2 cancellable mutex: holder + one waiter on a queueing scheduler, event plan %d (base-3: 0 unlock, 1 stop, 2 run scheduler)' % p) for p in range(27)] + [
     H('v2_stop_vs_unlock', 'C15_race_v2.cpp', ['h_unlock', 'h_stop1'], 40, tier='deep', timeout=3000, preempt=2, desc='v2 mutex: unlock() popping the head waiter races a stop request on the next queued waiter'),
-    H('v1_two_lockers_try', 'C15_mutex_v1.cpp', ['h_lock0', 'h_lock1', 'h_try'], 30, final='h_final2', tier='thorough', timeout=3000, opts=dict(prune=0), desc='two async_lock + one try_lock/unlock'),
+    H('v1_two_lockers_try', 'C15_mutex_v1.cpp', ['h_lock0', 'h_lock1', 'h_try'], 30, final='h_final2', tier='thorough', timeout=3000, desc='two async_lock + one try_lock/unlock'),
   ])
 
 PROPS['C16'] = dict(level='model_checking',
@@ -48,7 +48,7 @@ PROPS['C08'] = dict(level='model_checking',
     H('v2_nest_vs_join', 'C08_scope_v2.cpp', ['h_nest0', 'h_join0'], 18, final='h_final11', desc='nest/start/complete racing join'),
   ] + [SEQ('v1_plan_%02d' % p, 'C08_scope_v1.cpp', 'h_scope_v1', exc=True, opts=dict(params=[p], max_rec=4), desc='v1 scope with one attached manual leaf, event plan %d (base-4: 0 complete(), 1 cleanup(), 2 request_stop(), 3 work finishes); leaf outcome symbolic' % p) for p in range(64)] + [
     H('v2_two_nest_one_join', 'C08_scope_v2.cpp', ['h_nest0', 'h_nest1', 'h_join0'], 24, final='h_final21', tier='deep', timeout=3000, desc='two nest/start/complete racing join'),
-    H('v2_nest_two_joins', 'C08_scope_v2.cpp', ['h_nest0', 'h_join0', 'h_join1'], 24, final='h_final12', tier='thorough', timeout=3000, opts=dict(prune=0), desc='one nest racing two joins'),
+    H('v2_nest_two_joins', 'C08_scope_v2.cpp', ['h_nest0', 'h_join0', 'h_join1'], 24, final='h_final12', tier='thorough', timeout=3000, desc='one nest racing two joins'),
   ])
 
 PROPS['C19'] = dict(level='model_checking',
@@ -103,9 +103,9 @@ PROPS['C07'] = dict(level='model_checking',
   outside='operands near INT64 limits (overflow is undefined there); io_epoll/io_uring kernel timers',
   harnesses=[SEQ('clock_' + n, 'C07_clock.cpp', 'h_' + n, timeout=1800, tier=('thorough' if n == 'normalize' else 'deep'), desc='monotonic_clock::time_point ' + n) for n in ('normalize', 'add_sub', 'order')] +
    [H('timerq_n%d_c%d' % (n, c), 'C07_timerq.cpp', ['h_worker', 'h_main'], 44, tier='deep', timeout=2400, opts=dict(params=[n, c], thread_of_body={'0': 0}), desc='timed_single_thread_context: %d timers with symbolic due times%s' % (n, ', last one cancelled' if c else '')) for n in (2,) for c in (0, 1)] +
-   [H('timer_race_due%d_stop%d' % (d, c), 'C07_timer_race.cpp', ['h_worker', 'h_main'], 40, opts=dict(params=[d, c], thread_of_body={'0': 0}, prune=(0 if c else 1)), desc='timed_single_thread_context: start() of a timer due at %d racing the timer thread%s (minimal outer stop source; receiver frees the op)' % (d, ', then a stop request' if c else '')) for d in (0,) for c in (0, 1)] +
+   [H('timer_race_due%d_stop%d' % (d, c), 'C07_timer_race.cpp', ['h_worker', 'h_main'], 40, opts=dict(params=[d, c], thread_of_body={'0': 0}), desc='timed_single_thread_context: start() of a timer due at %d racing the timer thread%s (minimal outer stop source; receiver frees the op)' % (d, ', then a stop request' if c else '')) for d in (0,) for c in (0, 1)] +
    [H('timer_race_due50_stop1', 'C07_timer_race.cpp', ['h_worker', 'h_main'], 40, tier='thorough', timeout=2400, opts=dict(params=[50, 1], thread_of_body={'0': 0}), desc='timed_single_thread_context: timer due at 50 started, then a stop request races the timer thread')] +
-   [H('timerq_seq_n3_c%d' % c, 'C07_timerq.cpp', [], 0, setup='h_seq', final='h_final', opts=dict(params=[3, c, 1], feas=1, feas_at=12, max_visits=200), desc='timed_single_thread_context, sequential: 3 timers with symbolic due times started in order%s, then the run loop executes them (clock jumps to deadlines)' % (', timer %d cancelled first' % (c - 1) if c else '')) for c in (0, 1, 2, 3)])
+   [H('timerq_seq_n3_c%d%s' % (c, '_enum' if e else ''), 'C07_timerq.cpp', [], 0, setup='h_seq', final='h_final', tier=('quick' if e else 'thorough'), timeout=(900 if e else 2400), opts=dict(params=[3, c, 1, e], feas=1, feas_at=12, max_visits=200), desc='timed_single_thread_context, sequential: 3 timers with ' + ('due times from {0,16,32,48}' if e else 'symbolic 8-bit due times') + ' started in order%s, then the run loop executes them (clock jumps to deadlines)' % (', timer %d cancelled first' % (c - 1) if c else '')) for c in (0, 1, 2, 3) for e in (1, 0)])
 
 PROPS['C18'] = dict(level='model_checking',
   bounds='any_object: every sequence of 3 operations out of 8 (construct small/large/throwing-move, move-assign, move-construct, copy-assign small/large, destroy) enumerated as harness parameters; values and the throwing-copy position symbolic',
@@ -182,16 +182,25 @@ LIST_PAIRS = [(0, 2, 2, 'pop_front vs try_remove(second)'), (1, 2, 2, 'try_remov
   (7, 1, 2, 'push_front vs try_remove(first)'), (3, 0, 1, 'push_back vs pop_front'), (6, 3, 1, 'drain_into vs push_back'), (1, 5, 3, 'try_remove(first) vs try_remove(third)'),
   (2, 5, 3, 'try_remove(second) vs try_remove(third): adjacent'), (0, 3, 0, 'pop_front vs push_back on an empty list')]
 LIST_QUICK = {(0, 2, 2), (0, 1, 2), (0, 0, 1), (7, 1, 2), (3, 0, 1), (0, 3, 0)}
-PROPS['C15']['harnesses'] += [H('list_%d_%d_n%d' % (a, b, n), 'C15_list.cpp', ['h_t0', 'h_t1'], 36, tier=('quick' if (a, b, n) in LIST_QUICK else 'thorough'), timeout=(3000 if (a, b, n) == (4, 2, 3) else 1500), opts=dict(params=[a, b, n], prune=0, max_visits=40, feas_seq=1, feas_at=3), desc='atomic_intrusive_list (v2 mutex waiter queue), %d initial nodes: %s' % (n, d)) for a, b, n, d in LIST_PAIRS]
+PROPS['C15']['harnesses'] += [H('list_%d_%d_n%d' % (a, b, n), 'C15_list.cpp', ['h_t0', 'h_t1'], 36, tier=('quick' if (a, b, n) in LIST_QUICK else 'thorough'), timeout=(3000 if (a, b, n) == (4, 2, 3) else 1500), opts=dict(params=[a, b, n], max_visits=40, feas_seq=1, feas_at=3), desc='atomic_intrusive_list (v2 mutex waiter queue), %d initial nodes: %s' % (n, d)) for a, b, n, d in LIST_PAIRS]
 LATCH_PAIRS = [(0, 1, 0, 0, 'wait start vs set'), (0, 1, 1, 0, 'wait start vs set, one waiter queued'), (2, 1, 1, 0, 'stop of the queued waiter vs set'), (2, 1, 2, 0, 'stop of the older waiter vs set, two queued'),
   (5, 6, 2, 0, 'stop of the newer waiter vs set+ready, two queued'), (0, 3, 0, 1, 'wait start vs reset on a set event'), (1, 3, 1, 0, 'set vs reset, one waiter queued'), (0, 4, 0, 0, 'two wait starts'),
   (0, 2, 1, 0, 'wait start vs stop of the queued waiter'), (2, 5, 2, 0, 'two stops of adjacent waiters'), (1, 1, 1, 0, 'two concurrent set() calls, one waiter')]
 LATCH_QUICK = {(0, 1, 0, 0), (0, 3, 0, 1), (0, 2, 1, 0), (0, 4, 0, 0)}
 LATCH_DEEP = {(2, 1, 1, 0), (2, 1, 2, 0), (5, 6, 2, 0), (1, 1, 1, 0)}
 PROPS['C16']['harnesses'] += [H('latch_%d_%d_n%d_l%d' % (a, b, n, l), 'C16_latch.cpp', ['h_t0', 'h_t1'], (48 if (a, b, n, l) == (0, 1, 1, 0) else 40), tier=('quick' if (a, b, n, l) in LATCH_QUICK else 'deep' if (a, b, n, l) in LATCH_DEEP else 'thorough'), timeout=2400,
-   opts=dict(params=[a, b, n, l], prune=0, max_visits=40, feas_seq=1, feas_at=3), desc='atomic_intrusive_list latch mode (v2 manual reset event waiter list), %d queued, %s: %s' % (n, 'initially set' if l else 'initially unset', d)) for a, b, n, l, d in LATCH_PAIRS]
+   opts=dict(params=[a, b, n, l], max_visits=40, feas_seq=1, feas_at=3), desc='atomic_intrusive_list latch mode (v2 manual reset event waiter list), %d queued, %s: %s' % (n, 'initially set' if l else 'initially unset', d)) for a, b, n, l, d in LATCH_PAIRS]
 PROPS['C16']['harnesses'] += [H('latch_%d_%d_n%d_l%d_p2' % (a, b, n, l), 'C16_latch.cpp', ['h_t0', 'h_t1'], 56, tier='thorough', timeout=2400, preempt=2,
-   opts=dict(params=[a, b, n, l], prune=0, max_visits=40, feas_seq=1, feas_at=3), desc='as latch_%d_%d_n%d_l%d but only schedules with at most 2 preemptions: %s' % (a, b, n, l, d)) for a, b, n, l, d in LATCH_PAIRS if (a, b, n, l) in LATCH_DEEP]
+   opts=dict(params=[a, b, n, l], max_visits=40, feas_seq=1, feas_at=3), desc='as latch_%d_%d_n%d_l%d but only schedules with at most 2 preemptions: %s' % (a, b, n, l, d)) for a, b, n, l, d in LATCH_PAIRS if (a, b, n, l) in LATCH_DEEP]
+def EP(name, params, desc, tier='quick', **o):
+    return SEQ('epoll_' + name, 'C07_epoll.cpp', 'h_epoll', exc=True, tier=tier, no_native=True, opts=dict(params=params, clock_choices=[0, 30, 60], max_visits=60, max_rec=8, feas_br=1, feas_max=20000, prune=1, prune_at=2, prune_budget=300, **o), desc='io_epoll_context over a stubbed kernel: ' + desc)
+EPOLL = [EP('timer', [1, 0, 0, 0, 0, 0, 0], 'one timer started from another thread, never cancelled')] + \
+  [EP('timer_cancel_at%d' % k, [1, 0, 3, k, 0, 0, 0], 'timer started remotely; remote stop request injected at the I/O thread\'s system call #%d' % k) for k in range(1, 10)] + \
+  [EP('two_timers_b%d_cancel_at%d' % (db, k), [1, 0, 2, 0, 3, k, db], 'timers A (due 50, stoppable) and B (due %d) started remotely; remote stop request for A at system call #%d' % (db, k)) for db in (40, 50, 60) for k in (2, 3, 4, 5, 6, 7, 8, 99)] + \
+  [EP('two_timers_late_b%d_at%d' % (db, k), [1, 0, 2, k, 0, 0, db], 'timer A started, timer B (due %d) started remotely at system call #%d' % (db, k)) for db in (40, 60) for k in (1, 3, 5)]
+EPOLL14 = [EP('remote_sched_at%d_%d' % (k1, k2), [4, k1, 6, k2, 0, 0, 0], 'two schedule() operations started from other threads at system calls #%d and #%d (idle / wake-up protocol)' % (k1, k2)) for k1 in (0, 1, 2, 3) for k2 in (k1, k1 + 1, k1 + 2, k1 + 3)]
+PROPS['C14']['harnesses'] += EPOLL14
+PROPS['C07']['harnesses'] += EPOLL
 # cross-registration: harnesses whose assertions also decide clauses of other properties
 PROPS['C04']['harnesses'] += [h for h in PROPS['C01']['harnesses'] if h['name'] in ('wa_race_min', 'sw_race_min')]
 PROPS['C05']['harnesses'] += [h for h in PROPS['C04']['harnesses'] if h['name'] == 'wa_inline_cancel'] + \
